@@ -1,16 +1,119 @@
 /-
-Driver op for C19 (piston-theory coefficients):
-  coefs <beta|-> <gamma|-> <aeromu|-> <mach|-> <rho> <v> <ainf> <r> <q>
-reply: ok <beta> <gamma> <aeromu> | err machNone | err machBelowOne
+Driver ops for C19:
+
+  coefs <beta|-> <gamma|-> <aeromu|-> <mach|-> <rho> <v> <ainf> <r> <q>          (piston-theory coefficients, `Model/Piston.lean`)
+  reply: ok <beta> <gamma> <aeromu> | err machNone | err machBelowOne
+
+  bay | <bay: key=value …> | <panel> ; <panel> ; … | <result of kernel call 0> ; <result of call 1> ; … | <probes>
+      (`StiffPanelBay.calc_kA`, `Model/BayAero.lean`)
+      bay     a= b= r= m= n= model=unset|invalid|plate|platew|cpanel|kpanel flow=x|y|other beta= gamma= aeromu= mach= rho= V= ainf=
+              size= stiff=-|assertion|runtime parts=<n,n,…|-> q=                       (`-` = None / no such attribute)
+      panel   the panel line of the C02 glue driver (`Drv/C02.lean`)
+  reply:
+      ok | <call> & <call> | comb=<expr> | <bay post> | <writes> | <panel post> ; <panel post> ; … | <values at the probes>
+      err <PythonExceptionClass> <tag> | <bay post> | <writes> | <panel post> ; …
+  with <bay post> = model= mach= size=, <writes> = the attribute writes on panels[0] in order (`flow=x beta=… … r=…`), <call>, <panel post> as
+  in the C02 glue driver (plus `flow= beta= gamma= aeromu=` of the panel)
+
+  flutter | size=<n> q=<q> | <panel> rs=<row_start> cs=<col_start> ; … | <results> | <probes>
+      (aerodynamic part of `tstiff2d_1stiff_flutter`)
+  reply:
+      ok | <calls> | comb=<expr> | <panel post> ; … | <values>
+      err <PythonExceptionClass> <tag> | <panel post> ; …
 -/
 import CompmechVerif.Model.Piston
+import CompmechVerif.Model.BayAero
 import CompmechVerif.Drv.Proto
+import CompmechVerif.Drv.C02
 
 namespace Compmech.Drv.C19
-open Compmech.Proto Compmech.Piston
+open Compmech.Proto Compmech.Piston Compmech.PanelGlue Compmech.BayAero Compmech.Asm
+open Compmech.Drv.C02 (kvs look gQ gOQ gN gON model? flow? panel? triples pairs showOQ showON showCall showComb showPost showModel errTag)
 
 def optQ (s : String) : Option (Option ℚ) :=
   if s = "-" then some none else (parseQ? s).map some
+
+def stiff? : String → Option (Option StiffExc)
+  | "-" => some none
+  | "assertion" => some (some .assertion)
+  | "runtime" => some (some .runtime)
+  | _ => none
+
+def parts? (s : String) : Option (List Nat) :=
+  if s = "-" then some [] else (s.splitOn ",").mapM String.toNat?
+
+def bay? (kv : List (String × String)) (panels : List (Panel ℚ)) : Option (AeroBay ℚ × ℚ) := do
+  let B : AeroBay ℚ := {
+    a := ← gOQ kv "a", b := ← gOQ kv "b", r := ← gOQ kv "r", m := ← gN kv "m", n := ← gN kv "n",
+    model := ← (look kv "model").bind model?, flow := ← (look kv "flow").bind flow?,
+    beta := ← gOQ kv "beta", gamma := ← gOQ kv "gamma", aeromu := ← gOQ kv "aeromu", mach := ← gOQ kv "mach",
+    rhoAir := ← gOQ kv "rho", V := ← gOQ kv "V", speedSound := ← gOQ kv "ainf", sizeAttr := ← gON kv "size",
+    panels := panels, stiffRebuildErr := ← (look kv "stiff").bind stiff?, partSizes := ← (look kv "parts").bind parts? }
+  let q ← gQ kv "q"
+  pure (B, q)
+
+def showFlow : Flow → String
+  | .x => "x" | .y => "y" | .other => "other"
+
+def showWrite : SkinWrite ℚ → String
+  | .flow f => "flow=" ++ showFlow f
+  | .beta v => "beta=" ++ showOQ v
+  | .gamma v => "gamma=" ++ showOQ v
+  | .aeromu v => "aeromu=" ++ showOQ v
+  | .mach v => "Mach=" ++ showOQ v
+  | .rhoAir v => "rho_air=" ++ showOQ v
+  | .speedSound v => "speed_sound=" ++ showOQ v
+  | .size s => s!"size={s}"
+  | .V v => "V=" ++ showOQ v
+  | .r v => "r=" ++ showOQ v
+
+def stiffTag : StiffExc → String
+  | .assertion => "assertion" | .runtime => "runtime"
+
+def bayErrTag : BayErr → String
+  | .aMissing => "aMissing" | .bMissing => "bMissing"
+  | .panelRebuild i e => s!"panelRebuild:{i}:" ++ errTag e
+  | .modelMismatch i => s!"modelMismatch:{i}"
+  | .stiffRebuild x => "stiffRebuild:" ++ stiffTag x
+  | .machNoneCompare => "machNoneCompare" | .machBelowOne => "bayMachBelowOne" | .noneArith => "noneArith"
+  | .zeroDivision => "zeroDivision" | .noPanels => "noPanels" | .noSizeAttr => "bayNoSizeAttr" | .noModel => "bayNoModel"
+  | .skin e => "skin:" ++ errTag e
+
+def showPanelPost (P : Panel ℚ) : String :=
+  showPost P ++ " flow=" ++ showFlow P.flow ++ " beta=" ++ showOQ P.beta ++ " gamma=" ++ showOQ P.gamma ++ " aeromu=" ++ showOQ P.aeromu
+
+def showBayPost (B : AeroBay ℚ) : String :=
+  "model=" ++ showModel B.model ++ " mach=" ++ showOQ B.mach ++ " size=" ++ showON B.sizeAttr
+
+def showBay (o : BayOutcome ℚ) (res : List (Coo ℚ)) (probes : List (Nat × Nat)) : String :=
+  let tail := showBayPost o.post ++ " | " ++ " ".intercalate (o.writes.map showWrite) ++ " | " ++
+    " ; ".intercalate (o.post.panels.map showPanelPost)
+  match o.res with
+  | .error e => "err " ++ e.pyType ++ " " ++ bayErrTag e ++ " | " ++ tail
+  | .ok R =>
+    let M := R.comb.eval fun i => res.getD i []
+    "ok | " ++ " & ".intercalate (R.calls.map showCall) ++ " | comb=" ++ showComb R.comb ++ " | " ++ tail ++ " | " ++
+      showQs (probes.map fun p => toFun M p.1 p.2)
+
+def flutterErrTag : FlutterErr → String
+  | .empty => "empty"
+  | .panel i e => s!"panel:{i}:" ++ errTag e
+
+def showFlutter (o : FlutterOutcome ℚ) (res : List (Coo ℚ)) (probes : List (Nat × Nat)) : String :=
+  let tail := " ; ".intercalate (o.post.map showPanelPost)
+  match o.res with
+  | .error e => "err " ++ e.pyType ++ " " ++ flutterErrTag e ++ " | " ++ tail
+  | .ok R =>
+    let M := R.comb.eval fun i => res.getD i []
+    "ok | " ++ " & ".intercalate (R.calls.map showCall) ++ " | comb=" ++ showComb R.comb ++ " | " ++ tail ++ " | " ++
+      showQs (probes.map fun p => toFun M p.1 p.2)
+
+def splitSemi (s : String) : List String := if (words s).isEmpty then [] else s.splitOn ";"
+
+def skin? (s : String) : Option (SkinPanel ℚ) := do
+  let kv := kvs s
+  let P ← panel? kv
+  pure ⟨P.1, ← gN kv "rs", ← gN kv "cs"⟩
 
 def handle (op : String) (rest : String) : String :=
   match op with
@@ -25,6 +128,25 @@ def handle (op : String) (rest : String) : String :=
         | .error .machBelowOne => "err machBelowOne"
       | _, _, _, _, _, _, _, _, _ => "err parse"
     | _ => "err parse"
+  | "bay" =>
+    match fields rest with
+    | [_, bs, ps, rs, pr] =>
+      match (splitSemi ps).mapM (fun s => (panel? (kvs s)).map (·.1)), (rs.splitOn ";").mapM (fun s => triples (words s)),
+          pairs (words pr) with
+      | some panels, some res, some probes =>
+        match bay? (kvs bs) panels with
+        | some (B, q) => showBay (bayCalcKA B q) res probes
+        | none => "err parse bay"
+      | _, _, _ => "err parse"
+    | _ => "err parse fields"
+  | "flutter" =>
+    match fields rest with
+    | [_, hs, ps, rs, pr] =>
+      match gN (kvs hs) "size", gQ (kvs hs) "q", (splitSemi ps).mapM skin?, (rs.splitOn ";").mapM (fun s => triples (words s)),
+          pairs (words pr) with
+      | some size, some q, some skin, some res, some probes => showFlutter (flutterKA size skin q) res probes
+      | _, _, _, _, _ => "err parse"
+    | _ => "err parse fields"
   | _ => "err unknown-op"
 
 end Compmech.Drv.C19
